@@ -66,6 +66,8 @@ pub fn err_string(e: &deser::Error) -> String {
         AlignmentError => "err alignment".into(),
         InvalidTag(t) => format!("err tag {}", t),
         FileOpenError(_) => "err fileopen".into(),
+        #[allow(unreachable_patterns)]
+        other => format!("err other {}", format!("{:?}", other).split(|c: char| !c.is_alphanumeric()).next().unwrap_or("")),
     }
 }
 
@@ -176,9 +178,31 @@ pub fn schema_generic<T: Serialize>(v: &T) -> String {
             }
             let csv = catch(|| schema.to_csv()).map(|c| c.lines().count());
             let dbg = catch(|| schema.debug(&out)).map(|c| c.lines().count());
-            s.push_str(&format!(" csv={:?} debug={:?}", csv, dbg));
+            // a sink that hands its bytes on only when flushed: when the call returns, the whole stream must have arrived
+            let mut cf = CommitOnFlush::default();
+            let arrived = matches!(catch(|| v.serialize_with_schema(&mut cf).is_ok()), Some(true)) && cf.committed == out && cf.pending.is_empty();
+            let mut cf2 = CommitOnFlush::default();
+            let arrived2 = matches!(catch(|| v.serialize(&mut cf2).is_ok()), Some(true)) && cf2.committed == out && cf2.pending.is_empty();
+            s.push_str(&format!(" csv={:?} debug={:?} flushed={}", csv, dbg, arrived && arrived2));
             s
         }
+    }
+}
+
+/// A sink that buffers what it is given and hands it on only when flushed.
+#[derive(Default)]
+pub struct CommitOnFlush {
+    pub pending: Vec<u8>,
+    pub committed: Vec<u8>,
+}
+impl std::io::Write for CommitOnFlush {
+    fn write(&mut self, buf: &[u8]) -> std::io::Result<usize> {
+        self.pending.extend_from_slice(buf);
+        Ok(buf.len())
+    }
+    fn flush(&mut self) -> std::io::Result<()> {
+        self.committed.append(&mut self.pending);
+        Ok(())
     }
 }
 
